@@ -35,4 +35,20 @@ theorem versionIncludes_mem {mn mx : Ver} {s : Nat} (h : versionIncludes mn mx s
   · exact Or.inl (Or.inr (isIn_mem h.2))
   · exact Or.inr (isIn_mem h.2)
 
+theorem isIn_singleton_filter {s : Nat} {p : Nat → Bool} (h : isIn s ([s].filter p) = true) : p s = true :=
+  isIn_filter h
+
+/-- a negotiable suite passed the version filter of its version -/
+theorem negotiable_versionIncludes {r : Role} {v : Ver} {s : Nat} (h : negotiable r v s = true) :
+    versionIncludes v v s = true := by
+  cases r <;> simp only [negotiable, clientNegotiable, serverNegotiable, Bool.and_eq_true] at h <;>
+    exact isIn_filter (l := [s]) (by simpa [filterForVersion] using h.2)
+
+/-- the shape of an element of `negotiableTriples` -/
+theorem mem_negotiableTriples {t : Nat × Ver × Role} (h : t ∈ negotiableTriples) :
+    ∃ r v, v ∈ allVersions ∧ (t.2.1 = v ∧ negotiable r v t.1 = true) := by
+  simp only [negotiableTriples, negotiableAt, List.mem_flatMap, List.mem_map, List.mem_filter] at h
+  obtain ⟨r, _, v, hv, s, ⟨_, hs⟩, rfl⟩ := h
+  exact ⟨r, v, hv, rfl, hs⟩
+
 end Tls.Suites
